@@ -91,6 +91,7 @@ def endpoint_factory(ctx: Ctx, fn: FuncInfo):
 def run(ctx: Ctx, rep: Report) -> None:
     rep.rule("C13-R1", "every completion kind of the per-attempt future releases the attempt's transport", floor=4)
     rep.rule("C13-R2", "retry loop: at most `retries` endpoints; Timeout after exactly `retries` unanswered attempts; return at first reply", floor=7)
+    rep.rule("C13-R4", "the retries and timeout the sender works with are the client's current settings, read when the request is sent (shared with C18-R3)", floor=2)
     rep.rule("C13-R3", "identical datagram per attempt, exact timeout, reply bytes returned unmodified, one sendto per endpoint", floor=4)
     rep.assumptions += [
         "precondition retries >= 1 (the property's quantifier)",
@@ -369,3 +370,4 @@ def run(ctx: Ctx, rep: Report) -> None:
         if not vals or not all(isinstance(v, ast.Await) and isinstance(v.value, ast.Call) and cfg_node_of(scfg, v.value) in get_data_nodes for v in vals):
             oks = False
     rep.check(oks, "C13-R3", send.site(), "send_udp returns the bytes of the attempt that was answered, unmodified", f"{[norm(r.value) for r in srets]}", key=f"{send.key}|reply-modified")
+    rep.adopt_rules(ctx.sub_run("c18", rep), "C13-R4", ["C18-R3"], containing="given to the sender")
